@@ -184,6 +184,8 @@ var c05Ops = []c05Op{
 	{"zerop", 1, 1, "cmp", 1, true}, {"plusp", 1, 1, "cmp", 1, true}, {"minusp", 1, 1, "cmp", 1, true},
 	// (incf place [delta]) / (decf place [delta]): the place is a variable holding the first operand
 	{"incf", 1, 2, "place", 1, false}, {"decf", 1, 2, "place", 1, false},
+	// slip.LessThan(a, b), the Go ordering helper of the root package (coerce.go), called directly
+	{"LessThan", 2, 2, "go", 1, true},
 }
 
 func (op c05Op) isCmp() bool { return op.domain == "cmp" || op.domain == "cmp1" }
@@ -205,6 +207,9 @@ func (cs c05Case) hasFloat() bool {
 
 func (cs c05Case) request() string {
 	parts := []string{"num", cs.op.name}
+	if cs.op.name == "LessThan" {
+		parts[1] = "<"
+	}
 	for _, a := range cs.args {
 		parts = append(parts, a.wire())
 	}
@@ -242,7 +247,17 @@ func c05Impl(cs c05Case) (reply string, mutated bool, fault bool, msg string) {
 	}
 	src += "))"
 	place := cs.op.domain == "place"
-	o := lib.EvalString(scope, src)
+	var o lib.Outcome
+	if cs.op.domain == "go" {
+		o = lib.Protect(func() slip.Object {
+			if slip.LessThan(objs[0], objs[1]) {
+				return slip.List{slip.True}
+			}
+			return slip.List{nil}
+		})
+	} else {
+		o = lib.EvalString(scope, src)
+	}
 	for i := range objs {
 		// the operand object itself must be unchanged …
 		if c05Show(objs[i]) != before[i] {
@@ -644,7 +659,7 @@ func runC05(c *lib.Ctx) {
 		if op.maxArg == -1 || op.maxArg >= 2 {
 			var left, right []c05Operand
 			switch op.domain {
-			case "rat", "place":
+			case "rat", "place", "go":
 				left, right = gridRatios, gridRatios
 			case "int":
 				left, right = grid, grid
@@ -778,7 +793,7 @@ func runC05(c *lib.Ctx) {
 				} else {
 					args = append(args, c05Single(float32(f)))
 				}
-			case op.domain == "place":
+			case op.domain == "place" || op.domain == "go":
 				args = append(args, randOperand("rat"))
 			default:
 				args = append(args, randOperand(op.domain))
